@@ -113,6 +113,7 @@ passes unedited after each -- the four `middleware/proxy` tests that need DNS fa
 | C04 | `f401b3b` | `mount("/"){GET ""}; <a request is served>; mount("/"){use "/"}`: the second sub-app was never expanded -- the `sync.Once` guards of the mount expansion had been consumed by the first startup (found when `Mount.tla` got the `Serve` action) |
 | C02 | `b7b6f7a` | a route registered as `/\\*` (escaped star: the literal path `/*`) handled every request, while its parser and `RoutePatternMatch` match `/*` only (found when every endpoint route of the C02 replay got its escape twin registered behind it) |
 | C15 | `fb5d6ec` | `Reset()` cleared the data that holds the absolute deadline and set none for the new session: a session reset by a handler never expired absolutely (found by the thorough tier once `ByIDSave` kept sessions in use past their deadline) |
+| C19 | `a85c266` | a wildcard-subdomain entry written with blanks in front (` https://*.example.com`, as a split of `a, b` yields) was cut at the position found in the untrimmed text: its sub-domains were refused and hosts beginning with a dot admitted (found by the quick tier once `Cors.tla` spelled list entries four ways: plain, trailing slash, upper case, blanks) |
 | C18 | `fbc241a` | client timeout released a Response the worker was about to fill (`acquire answer cancel deliver`) |
 | C18 | `fd7a868` | path parameter value `a b&c=d?e` arrived cut at `?` |
 | C10 | `a7429d1` `b3a2d9c` | `Secure()` false on https; proxy listed as `2001:DB8::1` not trusted for peer `2001:db8::1` |
